@@ -52,6 +52,14 @@ def sh_cases(seed, big):
                 out.append({"id": "sh%d" % i, "kind": "sh", "sh": True, "stages": [[v] + [cp(a) for a in args]], "env": env,
                             "odd_env": odd})
                 i += 1
+    # the command is shown (logged) while it is still being put together: what is shown later is the command as it is then
+    for how in (1, 2):
+        for args in (["a", "b c", "d"], ["x", "", "it's", "$y"], ["one"], ["p", "q"]):
+            out.append({"id": "sh%d" % i, "kind": "sh", "sh": True, "stages": [[v] + [cp(a) for a in args]], "shown_early": how})
+            i += 1
+        out.append({"id": "sh%d" % i, "kind": "sh", "stages": [[cp("cat"), cp("a"), cp("b b")], [cp("wc"), cp("-l"), cp("x y"), cp("z")]],
+                    "shown_early": how})
+        i += 1
     # program names that need quoting, empty program name
     for prog in ("", "my prog", "it's", "a|b", "x=1"):
         out.append({"id": "sh%d" % i, "kind": "sh", "stages": [[cp(prog), cp("arg")]]})
